@@ -680,3 +680,157 @@ func RuleBF1(c *Ctx) {
 		})
 	})
 }
+
+// ---------------------------------------------------------------- EC1
+
+// RuleEC1: "a parenthesis is still open" is a verdict about the whole project, not about
+// the file that happens to end. The scan loop runs its end-of-file handler for every
+// scanner it drains - the root file's and each included file's. A rejection that is reached
+// under the fact that an explicit context is unclosed must also be reached under the fact
+// that the stack of suspended scanners is empty (the root file has ended): at the end of an
+// included file the parentheses of the including files are, correctly, still open, so
+// `URL /a ( INCLUDE part.jst )` is refused although the same text written in place, and the
+// same INCLUDE without the parentheses, are accepted.
+func RuleEC1(c *Ctx) {
+	sc := c.Run.Begin("EC1", "every rejection reached under 'an explicit context is unclosed' is also reached under 'the scanner stack is empty'", 1)
+	defer sc.End()
+	pk := c.P.Pkg("core")
+	unclosed := c.Func("core", "JApiCore.HasUnclosedExplicitContext")
+	stackT := c.Named("scanner", "Stack")
+	if pk == nil || unclosed == nil || stackT == nil {
+		sc.Undecided("anchors", "-", "unresolved anchor: core.JApiCore.HasUnclosedExplicitContext / scanner.Stack")
+		return
+	}
+	info := pk.TypesInfo
+	isUnclosed := func(fa cfgx.Fact) bool {
+		call, ok := ast.Unparen(fa.Expr).(*ast.CallExpr)
+		return ok && fa.Truth && Callee(info, call) == unclosed
+	}
+	isRoot := func(fa cfgx.Fact) bool {
+		call, ok := ast.Unparen(fa.Expr).(*ast.CallExpr)
+		if !ok || !fa.Truth || len(call.Args) != 0 {
+			return false
+		}
+		g := Callee(info, call)
+		if g == nil || recvNamedOf(g) != stackT {
+			return false
+		}
+		b, ok := g.Type().(*types.Signature).Results().At(0).Type().Underlying().(*types.Basic)
+		return ok && b.Kind() == types.Bool
+	}
+	n := 0
+	c.P.Funcs(func(p *pkgT, fd *ast.FuncDecl) {
+		if p != pk {
+			return
+		}
+		inspectNoLit(fd.Body, func(x ast.Node) bool {
+			ret, ok := x.(*ast.ReturnStmt)
+			if !ok || len(ret.Results) == 0 {
+				return true
+			}
+			last := ret.Results[len(ret.Results)-1]
+			if tv, has := info.Types[last]; !has || tv.IsNil() || !isErrorLike(info.TypeOf(last)) {
+				return true
+			}
+			cf := c.CFG(pk, fd.Body)
+			if !cf.MustAt(ret, isUnclosed, nil, nil) {
+				return true
+			}
+			n++
+			// keyed by the predicate, not by the function the test happens to stand in
+			key := fmt.Sprintf("rejection-under:%s#%d", unclosed.Name(), n)
+			if cf.MustAt(ret, isRoot, nil, nil) {
+				sc.Holds(key, c.P.Pos(ret.Pos()), "only at the end of the root file")
+			} else {
+				sc.Violation(key, c.P.Pos(ret.Pos()), "'not all explicit contexts are closed' is decided at the end of every file, included ones too: an INCLUDE inside a parenthesised block is refused at the end of the included file, where the parentheses of the including file are still - rightly - open; the same INCLUDE without the parentheses, and the same text written in place, are accepted")
+			}
+			return true
+		})
+	})
+	if n == 0 {
+		sc.Undecided("sites", "-", "no rejection under HasUnclosedExplicitContext found")
+	}
+}
+
+// ---------------------------------------------------------------- PQ2
+
+// RulePQ2: a parameter the core takes from the scanner by itself is unquoted like the
+// others. Parameters normally reach a directive through AppendParameter, which takes the
+// quotes off; a lexeme fetched directly with `scanner.Next()` (the file name of INCLUDE)
+// bypasses it, so its value must go through Unquote() before it is used as text - otherwise
+// `INCLUDE "part.jst"` looks for a file whose name begins with a quote while `INCLUDE
+// part.jst` finds it.
+func RulePQ2(c *Ctx) {
+	sc := c.Run.Begin("PQ2", "in package core, the value of a lexeme fetched directly from Scanner.Next is unquoted before it is used as text", 1)
+	defer sc.End()
+	pk := c.P.Pkg("core")
+	next := c.Func("scanner", "Scanner.Next")
+	valueM := c.Func("scanner", "Lexeme.Value")
+	if pk == nil || next == nil || valueM == nil {
+		sc.Undecided("anchors", "-", "unresolved anchor: scanner.Scanner.Next / Lexeme.Value")
+		return
+	}
+	info := pk.TypesInfo
+	n := 0
+	c.P.Funcs(func(p *pkgT, fd *ast.FuncDecl) {
+		if p != pk {
+			return
+		}
+		cf := c.CFG(pk, fd.Body)
+		parents := map[ast.Node]ast.Node{}
+		var stack []ast.Node
+		ast.Inspect(fd.Body, func(y ast.Node) bool {
+			if y == nil {
+				stack = stack[:len(stack)-1]
+				return true
+			}
+			if len(stack) > 0 {
+				parents[y] = stack[len(stack)-1]
+			}
+			stack = append(stack, y)
+			return true
+		})
+		k := 0
+		ast.Inspect(fd.Body, func(y ast.Node) bool {
+			call, ok := y.(*ast.CallExpr)
+			if !ok {
+				return true
+			}
+			if f := Callee(info, call); f == nil || f.Origin() != valueM.Origin() {
+				return true
+			}
+			rid, ok := ast.Unparen(Recv(call)).(*ast.Ident)
+			if !ok {
+				return true
+			}
+			rhs, idx, ok := cf.TupleDefOf(info.ObjectOf(rid))
+			if !ok || idx != 0 {
+				return true
+			}
+			src, ok := ast.Unparen(rhs).(*ast.CallExpr)
+			if !ok || Callee(info, src) == nil || Callee(info, src).Origin() != next.Origin() {
+				return true
+			}
+			n++
+			k++
+			// keyed by where the lexeme comes from, not by the function that fetches it
+			key := fmt.Sprintf("lexeme-from:%s:Value#%d", next.Name(), n)
+			uses := valueUses(info, cf, fd.Body, call, parents)
+			bad := ""
+			for _, u := range uses {
+				if u != "Unquote" {
+					bad = u
+				}
+			}
+			if bad == "" {
+				sc.Holds(key, c.P.Pos(call.Pos()), "unquoted first")
+			} else {
+				sc.Violation(key, c.P.Pos(call.Pos()), "the value of a parameter lexeme taken straight from the scanner is used as written ("+bad+"), quotes included: the quoted spelling of the parameter means something else than the bare one (a file whose name begins with a quote)")
+			}
+			return true
+		})
+	})
+	if n == 0 {
+		sc.Holds("none", "-", "the core fetches no parameter lexeme by itself")
+	}
+}
